@@ -279,7 +279,9 @@ class ModelClient:
             self.geographic_unit_type,
             estimands,
             estimand_baselines,
-            data=preprocessed_data,
+            # the handler adds columns in place: work on a copy so that the caller's data frame (which may be
+            # passed again, for another office, estimand or estimator) is left as it was
+            data=preprocessed_data.copy() if preprocessed_data is not None else None,
             s3_client=s3.S3CsvUtil(TARGET_BUCKET),
         )
         preprocessed_data_handler.data = preprocessed_data_handler.select_rows_in_states(
